@@ -25,6 +25,30 @@ from gcmstatic.report import Ctx, HOLDS, VIOLATED, UNDECIDED  # noqa: E402
 ALL = [f"C{i:02d}" for i in range(1, 21)]
 
 
+# Upstream obligations: property -> {owning property: [obligation ids]}.  The behaviour a property speaks about flows through code
+# that another property anchors (the stock motif builders and the factory feed both generators; the network generator hands its
+# edge list to the converter; every loader goes through the base class's normaliser and the type dispatch; the evaluator's caches
+# are keyed by the name the message-passing driver gives the motif graph ...).  A change there breaks the downstream property as
+# well, so its check imports exactly those obligations (same rules, same program model) and reports them under its own id.
+UPSTREAM = {
+    # property: {owning property: [(obligation id, substrings one of which must occur in the instance's function / reason / text)]}
+    # the network generator hands its edge list to the converter: vertices that vanish there / a joint-degree annotation that is
+    # not carried are a joint degree sequence that is not realised
+    "C01": {"C04": [("C04.1", ()), ("C04.2", ("JOINT_DEGREE",))]},
+    # a builder that returns bare vertex ids makes the edge column longer than the name / id columns
+    "C02": {"C01": [("C01.9", ("bare vertex", "unpacks the pair"))]},
+    # `partition` (in this property's own anchor file) and the order in which a builder uses the vertices decide which stub lands
+    # in which motif position
+    "C03": {"C01": [("C01.3", ("partition",)), ("C01.9", ("re-orders",))]},
+    # the motif sizes the handshake test pairs with the columns are the ones the loaders store
+    "C05": {"C06": [("C06.I", ("_motif_sizes",))], "C08": [("C08.1", ("motif sizes", "_motif_sizes"))]},
+    # both loaders normalise through the base class and are reached through the type dispatch
+    "C07": {"C06": [("C06.4", ("normalise_jdd",)), ("C06.7", ("DELTA", "SPLIT_DEGREE", "JointDegreeDelta", "JointDegreeSplitDegree"))]},
+    # "sampling from it reproduces the profile": the sampler of the base class (an anchor file of this property)
+    "C08": {"C05": [("C05.1", ()), ("C05.7", ("sample_jds_from_jdd",))], "C06": [("C06.7", ("COVER", "JointDegreeCover"))]},
+}
+
+
 def run_property(prop: str, repo: str, tier: str, only=None, evidence_dir=None, seed=0, verbose=False,
                  quiet=False, write=True, known_path=None):
     t0 = time.time()
@@ -50,6 +74,36 @@ def run_property(prop: str, repo: str, tier: str, only=None, evidence_dir=None, 
         r = report.Result(prop, f"{prop}.*", "checker", UNDECIDED,
                           reason=f"checker exception {type(e).__name__}: {e} at {os.path.basename(tb.filename)}:{tb.lineno}")
         ctx.results.append(r)
+    # obligations of the components this property's behaviour flows through (see UPSTREAM): decided by the owning property's
+    # rules on the same program model, reported here under this property
+    try:
+        for dep, prefixes in UPSTREAM.get(prop, {}).items():
+            dctx = Ctx(prog, dep, tier, None)
+            dmod = importlib.import_module(f"checks.{dep.lower()}")
+            dmod.run(dctx)
+            if any(px.split(".")[-1] in ("I", "S", "Z", "A") for px, _ in prefixes):
+                from checks import common_state, common_zero
+                common_state.run(dctx)
+                common_zero.run(dctx)
+            for px, subs in prefixes:
+                seen = [r for r in dctx.results if r.obligation == px]
+                took = 0
+                for r in seen:
+                    blob = " ".join((r.function or "", r.reason or "", r.instance or "", r.construct or ""))
+                    if not subs or any(sb in blob for sb in subs):
+                        r.prop = prop
+                        r.rule = f"[upstream {px}] {r.rule}"
+                        r.obligation = f"{prop}.U"
+                        ctx.results.append(r)
+                        took += 1
+                if not took:
+                    ctx.results.append(report.Result(prop, f"{prop}.U", f"[upstream {px}] instances concerning {list(subs)}", HOLDS if seen else UNDECIDED,
+                                                     function=f"{dep} check", construct=f"{px}: {len(seen)} instance(s) examined",
+                                                     reason=f"none of the {len(seen)} instance(s) of {px} that concern {list(subs)} is violated" if seen else f"{px} produced no instance"))
+    except Exception as e:
+        tb = traceback.extract_tb(sys.exc_info()[2])[-1]
+        ctx.results.append(report.Result(prop, f"{prop}.U", "upstream obligations", UNDECIDED,
+                                         reason=f"checker exception {type(e).__name__}: {e} at {os.path.basename(tb.filename)}:{tb.lineno}"))
     results = ctx.results
     if only:
         results = [r for r in results if r.obligation == only]
